@@ -403,9 +403,13 @@ class History:
             entries = CC._widgets.get(w)
             if not entries or not hasattr(w, "rows"):
                 continue
-            for (wcls, size, focus), ref in list(entries.items()):
+            asked = set()
+            for (wcls, size, focus0), ref in list(entries.items()):
                 if len(size) != 1 or ref() is None:
                     continue
+                asked.add((size, focus0))
+                asked.add((size, not focus0))  # no canvas for this focus value (yet): must not be answered from the other one
+            for size, focus in sorted(asked, key=repr):
                 try:
                     r0 = self.shadow(lambda w=w, size=size, focus=focus: w.rows(size, focus))
                     r1 = w.rows(size, focus)
@@ -601,6 +605,10 @@ PROTOTYPES = {
         {"t": "ProgressBar", "cur": 40},
         {"t": "SelectableIcon", "text": "icon", "cpos": 1},
         {"t": "NoCacheText", "text": "no cache text here"},
+        {"t": "Expander", "title": "item", "details": ["detail 1", "detail 2"]},
+        {"t": "Pile", "items": [["pack", None, {"t": "Expander", "title": "item", "details": ["detail 1", "detail 2"]}], ["pack", None, {"t": "Text", "text": "tail", "align": "left", "wrap": "space"}]], "focus": 0},
+        {"t": "Pile", "items": [["pack", None, {"t": "Text", "text": "a", "align": "left", "wrap": "space"}], ["pack", None, {"t": "Pile", "items": [], "focus": 0}]], "focus": 0},
+        {"t": "Pile", "items": [["pack", None, {"t": "Pile", "items": [["pack", None, {"t": "Text", "text": "only", "align": "left", "wrap": "space"}]], "focus": 0}], ["pack", None, {"t": "Edit", "caption": "", "text": "e", "multiline": False, "align": "left", "wrap": "space", "pos": 0}]], "focus": 1},
         {"t": "AttrMap", "w": {"t": "Text", "text": "mapped", "align": "left", "wrap": "space"}, "am": "a", "fm": "b"},
         {"t": "AttrWrap", "w": {"t": "Text", "text": "wrapped", "align": "left", "wrap": "space"}, "am": "a", "fm": "b"},
         {"t": "AttrWrap", "w": {"t": "Button", "label": "wrapped button"}, "am": "a", "fm": None},
@@ -618,6 +626,8 @@ PROTOTYPES = {
         {"t": "ListBox", "items": [{"t": "Text", "text": "l0", "align": "left", "wrap": "space"}, {"t": "Edit", "caption": "", "text": "l1 edit", "multiline": False, "align": "left", "wrap": "space", "pos": 2}, {"t": "CheckBox", "label": "l2", "state": False}, {"t": "Text", "text": "l3\nl3b\nl3c", "align": "left", "wrap": "space"}, {"t": "Button", "label": "l4"}], "walker": "focus", "focus": 1},
         {"t": "ListBox", "items": [{"t": "Text", "text": "s0", "align": "left", "wrap": "space"}, {"t": "Button", "label": "s1"}, {"t": "Text", "text": "s2", "align": "left", "wrap": "space"}], "walker": "simple", "focus": 1},
         {"t": "ListBox", "items": [{"t": "Text", "text": f"r{i}", "align": "left", "wrap": "space"} if i % 3 else {"t": "Button", "label": f"r{i}"} for i in range(12)], "walker": "focus", "focus": 6},
+        {"t": "ListBox", "items": [{"t": "Text", "text": "\n".join(f"line {i}" for i in range(12)), "align": "left", "wrap": "space"}, {"t": "Text", "text": "after", "align": "left", "wrap": "space"}], "walker": "simple", "focus": 0},
+        {"t": "ListBox", "items": [{"t": "Text", "text": "before", "align": "left", "wrap": "space"}, {"t": "Edit", "caption": "", "text": "\n".join(f"e{i}" for i in range(9)), "multiline": True, "align": "left", "wrap": "space", "pos": 0}, {"t": "Button", "label": "b"}], "walker": "focus", "focus": 1},
         {"t": "Frame", "body": {"t": "Filler", "w": {"t": "Edit", "caption": "", "text": "body", "multiline": False, "align": "left", "wrap": "space", "pos": 0}, "valign": "top"}, "header": {"t": "Text", "text": "head", "align": "left", "wrap": "space"}, "footer": {"t": "Edit", "caption": "", "text": "foot", "multiline": False, "align": "left", "wrap": "space", "pos": 0}, "focus": "body"},
         {"t": "Frame", "body": {"t": "Filler", "w": {"t": "Edit", "caption": "", "text": "body", "multiline": False, "align": "left", "wrap": "space", "pos": 2}, "valign": "top"}, "header": {"t": "Button", "label": "hd"}, "footer": {"t": "SelectableIcon", "text": "footer icon", "cpos": 3}, "focus": "body"},
         {"t": "Overlay", "top": {"t": "Text", "text": "over lay", "align": "left", "wrap": "space"}, "bottom": {"t": "SolidFill", "ch": "."}, "align": "center", "width": 6, "valign": "middle", "height": "pack"},
@@ -677,6 +687,15 @@ def directed_cases(mode, quick=False, seed=0):
                 for j, inp in enumerate(inputs):
                     look = [[*o, "B"] for o in warm0] if j % 2 else warm0
                     cases.append({"mode": mode, "kind": rkind, "recipe": recipe, "sizes": sizes, "ops": [*warm0, inp, *look], "stratum": f"input:{recipe['t']}:{inp[0]}:{inp[2] if inp[0] == 'key' else ''}"})
+                # sequences of navigation keys, looking after every key (scroll state reached only step by step)
+                seqs = [["down", "down", "down", "page up"], ["page down", "page up"], ["down", "down", "up", "up"], ["page down", "page down", "page up", "up"], ["end", "page up", "home"], ["down", "page down", "up", "page up"]]
+                if quick:
+                    seqs = seqs[(seed + len(cases)) % 2 :: 2]
+                for j, seq in enumerate(seqs):
+                    ops = [["render", 0, 1]]
+                    for q, key in enumerate(seq):
+                        ops += [["key", 0, key], ["render", 0, 1, "AB"[(j + q) % 2]]]
+                    cases.append({"mode": mode, "kind": rkind, "recipe": recipe, "sizes": sizes, "ops": ops, "stratum": f"keyseq:{recipe['t']}:{j}"})
                 for idx, wd in enumerate(ws):
                     for trial in range(60):
                         m = T.propose(random.Random(f"{trial}:{idx}"), wd)
